@@ -535,6 +535,16 @@ def perform(w, a):
         elif name == 'TrigDpd':
             sa.start_dpd_at = w.now - 1
             out = w.timer(e, sa, 'check_dead_peer_detection_timer')
+        elif name == 'TimerIdle':
+            field, method = {'rekeyike': ('rekey_ike_sa_at', 'check_rekey_ike_sa_timer'), 'delike': ('delete_ike_sa_at', 'check_rekey_ike_sa_timer'),
+                             'dpd': ('start_dpd_at', 'check_dead_peer_detection_timer')}[a['which']]
+            keep = getattr(sa, field)
+            setattr(sa, field, w.now - 1)
+            try:
+                out = w.timer(e, sa, method)
+            finally:
+                if getattr(sa, field, None) == w.now - 1:
+                    setattr(sa, field, keep)
         elif name == 'Retransmit':
             sa.retransmit_at = w.now - 1
             sa.retransmissions = 1
